@@ -1,25 +1,68 @@
-(* Model of ServerManager.serveHls (pkg/logic/server_manager__.go): how the HLS
-   entry point composes the decision functions - simple auth for playlist
-   requests (OnHls on the stream name GetRequestInfo derives), then the IP
-   black-list for EVERY request, then hls.ServerHandler - and of histories of
-   requests / add_ip_blacklist calls / clock advances.  No proofs in this file. *)
+(* Model of ServerManager.serveHls (pkg/logic/server_manager__.go) together with the
+   session handling of hls.ServerHandler.ServeHTTPWithUrlCtx / CloseSubSessionIfExist
+   (pkg/hls/server_handler.go): how the HLS entry point composes the decision
+   functions - simple auth for playlist requests (OnHls on the stream name
+   GetRequestInfo derives, on the WHOLE raw query), then the IP black-list for EVERY
+   request, then the handler, which with the sub-session feature on
+   (hls.sub_session_hash_key != "") looks at the session_id query parameter -
+   and histories of requests / add_ip_blacklist calls / clock advances.
+   No proofs in this file. *)
 From Lal Require Import Common.LBytes Auth.AuthStr Auth.AuthSimple Auth.AuthPaths Auth.AuthBlacklist.
 Open Scope N_scope.
 
 Inductive hls_resp :=
-| HrFile (p : bytes)     (* the handler is reached and opens p (200 + content when it exists, else 404) *)
-| HrInvalid              (* the handler is reached and refuses the request path (302, no content) *)
+| HrFile (p : bytes)     (* the handler opens p (200 + content when it exists, else 404) *)
+| HrInvalid              (* the handler refuses the request path (302 without Location, no content) *)
 | HrBlocked              (* black-listed: 404, handler not reached *)
-| HrAuthFail.            (* simple auth failed: empty answer, neither black-list nor handler reached *)
+| HrAuthFail             (* simple auth failed: empty answer, neither black-list nor handler reached *)
+| HrNoSession            (* sub-session mode: unknown session_id, 404 *)
+| HrRedirect (sid : bytes). (* sub-session mode: a session is created, 302 to the same URL plus session_id=sid *)
+
+Definition s_session_id : bytes := [115; 101; 115; 115; 105; 111; 110; 95; 105; 100].   (* "session_id" *)
+
+(* black-list + hls.ServerHandler.sessionMap (ids) + number of sessions created so far *)
+Record hls_state := mk_hls_state { hs_bl : bl_table; hs_sessions : list bytes; hs_next : N }.
+Definition hls_state0 : hls_state := mk_hls_state [] [] 0.
+
+(* the id of the n-th session (the real one is md5(unique key + hash key); the harness
+   maps it to this name) *)
+Definition new_session_id (n : N) : bytes := 64 :: dec n.
+
+Fixpoint mem_bytes (x : bytes) (l : list bytes) : bool :=
+  match l with [] => false | y :: t => beq y x || mem_bytes x t end.
+Fixpoint remove_bytes (x : bytes) (l : list bytes) : list bytes :=
+  match l with [] => [] | y :: t => if beq y x then remove_bytes x t else y :: remove_bytes x t end.
 
 Section ServeHls.
   Variable md5raw : bytes -> bytes.
   Variable parse_query : bytes -> option (list (bytes * bytes)).
   Variable lower_uni : bytes -> bytes.
+  (* url.URL.Query(): the values ParseQuery returns next to its error (malformed pairs dropped) *)
+  Variable parse_query_all : bytes -> list (bytes * bytes).
+
+  Definition session_id_of (query : bytes) : bytes := query_get (parse_query_all query) s_session_id.
+
+  (* ServeHTTPWithUrlCtx *)
+  Definition hls_handler (sub_on : bool) (root : bytes) (st : hls_state) (path query : bytes)
+    : hls_state * hls_resp :=
+    let ftype := snd (filename_and_type (last_item_of_path path)) in
+    let serve := match hls_serve_file path root with Some p => HrFile p | None => HrInvalid end in
+    if sub_on then
+      let sid := session_id_of query in
+      if beq ftype s_ts && negb (is_empty sid) then
+        (st, if mem_bytes sid (hs_sessions st) then serve else HrNoSession)
+      else if beq ftype s_m3u8 then
+        if negb (is_empty sid) then
+          (st, if mem_bytes sid (hs_sessions st) then serve else HrNoSession)
+        else
+          let sid' := new_session_id (hs_next st) in
+          (mk_hls_state (hs_bl st) (sid' :: hs_sessions st) (hs_next st + 1), HrRedirect sid')
+      else (st, serve)
+    else (st, serve).
 
   (* serveHls for a request with decoded path [path], raw query [query] from address [ip] at time [now] *)
-  Definition serve_hls (cfg : sa_config) (root : bytes) (t : bl_table) (now : Z) (ip path query : bytes)
-    : bl_table * hls_resp :=
+  Definition serve_hls (cfg : sa_config) (sub_on : bool) (root : bytes) (st : hls_state) (now : Z)
+    (ip path query : bytes) : hls_state * hls_resp :=
     let ftype := snd (filename_and_type (last_item_of_path path)) in
     let auth_ok :=
       if beq ftype s_m3u8 then
@@ -28,23 +71,27 @@ Section ServeHls.
         | _ => false
         end
       else true in
-    if negb auth_ok then (t, HrAuthFail)
+    if negb auth_ok then (st, HrAuthFail)
     else
-      let '(t', b) := bl_has t ip now in
-      if b then (t', HrBlocked)
-      else (t', match hls_serve_file path root with Some p => HrFile p | None => HrInvalid end).
+      let '(t', b) := bl_has (hs_bl st) ip now in
+      if b then
+        (* CloseSubSessionIfExist *)
+        (mk_hls_state t' (remove_bytes (session_id_of query) (hs_sessions st)) (hs_next st), HrBlocked)
+      else hls_handler sub_on root (mk_hls_state t' (hs_sessions st) (hs_next st)) path query.
 
   Inductive sh_op :=
   | ShGet (ip path query : bytes)
   | ShBlacklist (ip : bytes) (dur : Z)      (* /api/ctrl/add_ip_blacklist *)
   | ShSleep (sec : Z).
 
-  Fixpoint sh_run (cfg : sa_config) (root : bytes) (t : bl_table) (now : Z) (ops : list sh_op) : list hls_resp :=
+  Fixpoint sh_run (cfg : sa_config) (sub_on : bool) (root : bytes) (st : hls_state) (now : Z) (ops : list sh_op)
+    : list hls_resp :=
     match ops with
     | [] => []
     | ShGet ip path query :: r =>
-        let '(t', resp) := serve_hls cfg root t now ip path query in resp :: sh_run cfg root t' now r
-    | ShBlacklist ip dur :: r => sh_run cfg root (bl_add t ip dur now) now r
-    | ShSleep s :: r => sh_run cfg root t (now + s)%Z r
+        let '(st', resp) := serve_hls cfg sub_on root st now ip path query in resp :: sh_run cfg sub_on root st' now r
+    | ShBlacklist ip dur :: r =>
+        sh_run cfg sub_on root (mk_hls_state (bl_add (hs_bl st) ip dur now) (hs_sessions st) (hs_next st)) now r
+    | ShSleep s :: r => sh_run cfg sub_on root st (now + s)%Z r
     end.
 End ServeHls.
